@@ -77,6 +77,31 @@ theorem C04_reads_are_reference_map (C : Ref → Bytes) (s : St) (h : Inv C s) :
     rw [this, List.map_id, List.take_of_length_le (by omega)]
     exact List.mem_filter.mpr ⟨(mem_union_iff_present h k).mpr hp, hk⟩
 
+/-- **StatBlobs reports every visible blob exactly once**: a batch stat calls `fn` once for each requested
+ref that is visible, in request order, with the size of its content, and never for another ref – in
+every state with the invariant, in particular while a blob is both packed and still loose (between
+the meta batch of its zip and the deletion of the loose copies, after a failed deletion, after a crash
+there and a restart).  For a request without repetitions no ref is reported twice. -/
+theorem C04_statBlobs_exactly_once (C : Ref → Bytes) (s : St) (h : Inv C s) (refs : List Ref) :
+    statBlobs s refs = (refs.filter (fun r => present s r)).map (fun r => (r, (C r).length)) ∧
+    (refs.Nodup → ((statBlobs s refs).map (·.1)).Nodup) := by
+  refine ⟨statBlobs_eq h refs, fun hn => ?_⟩
+  rw [statBlobs_eq h refs, List.map_map]
+  have : ((fun x : Ref × Nat => x.1) ∘ fun r => (r, (C r).length)) = id := rfl
+  rw [this, List.map_id]
+  exact hn.sublist List.filter_sublist
+
+/-- a batch stat is the same at every point a pack can stop in as before the pack -/
+theorem C04_statBlobs_pack_invisible (C : Ref → Bytes) (env : PackEnv) (s : St) (bud : Budget) (fileRef : Ref)
+    (lays : List ZipLayout) (fuel : Nat) (h : Inv C s) (refs : List Ref) :
+    statBlobs (packFile env s bud fileRef lays fuel).s refs = statBlobs s refs := by
+  obtain ⟨h', v⟩ := packFile_sound (C := C) env s bud fileRef lays fuel h
+  rw [statBlobs_eq h', statBlobs_eq h]
+  congr 1
+  apply List.filter_congr
+  intro r _
+  rw [v.pres]
+
 /-! ## the pack -/
 
 /-- **every state a pack can stop in is invisible.**  For every file schema blob, every parse `K`,
@@ -379,6 +404,9 @@ theorem reach3cut : Reachable C cfg s3cut :=
   .recv _ K _ _ rF [lay] 10 (.recv _ K _ _ rB [] 10 (.recv _ K _ _ rA [] 10 .empty))
 
 end Tiny
+
+/-- packed and still loose (pack cut after the meta batch): each blob is stat-ed once, not twice -/
+example : statBlobs Tiny.s3cut [Tiny.rF, Tiny.rA, [3], Tiny.rB] = [(Tiny.rF, 2), (Tiny.rA, 2), (Tiny.rB, 1)] := by decide
 
 /-- the hypotheses of the pack / read theorems hold in a non-trivial state: one zip in `large` holding
 two data blobs and the file schema blob, all three packed and no longer loose, the whole-file row
